@@ -112,6 +112,22 @@ impl ConnectionManager {
         // more smeared out over time to avoid spiky load / thundering herd issues where all dial
         // requests happen around the same time.
         let jitter = std::time::Duration::from_millis(1_000).mul_f64(rand::random::<f64>());
+        #[cfg(bmwill_anemo_verif)]
+        let jitter = crate::verif::jitter(jitter);
+        #[cfg(bmwill_anemo_verif)]
+        crate::verif::emit(
+            "mgr.start",
+            crate::verif::json!({
+                "node": crate::verif::pid(&self.endpoint.peer_id()),
+                "ap": self.active_peers.verif_id(),
+                "interval_ms": (self.config.connectivity_check_interval() + jitter).as_millis() as u64,
+                "step_ms": self.config.connection_backoff().as_millis() as u64,
+                "max_backoff_ms": self.config.max_connection_backoff().as_millis() as u64,
+                "connect_timeout_ms": self.config.connect_timeout().as_millis() as u64,
+                "cap": self.config.max_concurrent_outstanding_connecting_connections(),
+                "limit": self.config.max_concurrent_connections(),
+            }),
+        );
         let mut interval =
             tokio::time::interval(self.config.connectivity_check_interval() + jitter);
 
@@ -129,6 +145,14 @@ impl ConnectionManager {
                     let request = if let Some(request) = maybe_request {
                         request
                     } else {
+                        #[cfg(bmwill_anemo_verif)]
+                        crate::verif::emit(
+                            "shut.begin",
+                            crate::verif::json!({
+                                "node": crate::verif::pid(&self.endpoint.peer_id()),
+                                "kind": "dropped",
+                            }),
+                        );
                         break;
                     };
 
@@ -137,12 +161,29 @@ impl ConnectionManager {
                             self.handle_connect_request(address, peer_id, oneshot);
                         }
                         ConnectionManagerRequest::Shutdown(oneshot) => {
+                            #[cfg(bmwill_anemo_verif)]
+                            crate::verif::emit(
+                                "shut.begin",
+                                crate::verif::json!({
+                                    "node": crate::verif::pid(&self.endpoint.peer_id()),
+                                    "kind": "explicit",
+                                }),
+                            );
                             shutdown_notifier = Some(oneshot);
                             break;
                         }
                     }
                 }
                 connecting = self.endpoint.accept() => {
+                    #[cfg(bmwill_anemo_verif)]
+                    if connecting.is_none() {
+                        crate::verif::emit(
+                            "mgr.accept_none",
+                            crate::verif::json!({
+                                "node": crate::verif::pid(&self.endpoint.peer_id()),
+                            }),
+                        );
+                    }
                     if let Some(connecting) = connecting {
                         self.handle_incoming(connecting);
                     }
@@ -157,7 +198,16 @@ impl ConnectionManager {
             }
         }
 
+        #[cfg(bmwill_anemo_verif)]
+        let verif_node = crate::verif::pid(&self.endpoint.peer_id());
+
         self.shutdown().await;
+
+        #[cfg(bmwill_anemo_verif)]
+        crate::verif::emit(
+            "shut.done",
+            crate::verif::json!({ "node": verif_node, "notified": shutdown_notifier.is_some() }),
+        );
 
         if let Some(sender) = shutdown_notifier {
             let _ = sender.send(());
@@ -173,11 +223,45 @@ impl ConnectionManager {
         // connections, notifying the remote side of the endpoint's closure.
         self.endpoint.close();
 
+        #[cfg(bmwill_anemo_verif)]
+        let verif_node = crate::verif::pid(&self.endpoint.peer_id());
+        #[cfg(bmwill_anemo_verif)]
+        {
+            crate::verif::emit(
+                "shut.closed",
+                crate::verif::json!({
+                    "node": verif_node,
+                    "pending": self.pending_connections.len(),
+                    "handlers": self.connection_handlers.len(),
+                }),
+            );
+            crate::verif::block_point("shut.closed", crate::verif::json!({ "node": verif_node }));
+            crate::verif::point("shut.closed", crate::verif::json!({ "node": verif_node })).await;
+        }
+
         // Terminate any in-progress pending connections
         self.pending_connections.shutdown().await;
 
+        #[cfg(bmwill_anemo_verif)]
+        {
+            crate::verif::emit("shut.aborted", crate::verif::json!({ "node": verif_node }));
+            crate::verif::block_point("shut.aborted", crate::verif::json!({ "node": verif_node }));
+            crate::verif::point("shut.aborted", crate::verif::json!({ "node": verif_node })).await;
+        }
+
         // Wait for all connection handlers to terminate
         while self.connection_handlers.join_next().await.is_some() {}
+        #[cfg(bmwill_anemo_verif)]
+        {
+            crate::verif::block_point("shut.joined", crate::verif::json!({ "node": verif_node }));
+            crate::verif::emit(
+                "shut.joined",
+                crate::verif::json!({
+                    "node": verif_node,
+                    "active_len": self.active_peers.inner().connections.len(),
+                }),
+            );
+        }
         // At this point we shouldn't have any active peers
         assert!(
             self.active_peers.inner().connections.is_empty(),
@@ -188,6 +272,14 @@ impl ConnectionManager {
         self.endpoint
             .wait_idle(self.config.shutdown_idle_timeout())
             .await;
+        #[cfg(bmwill_anemo_verif)]
+        crate::verif::emit(
+            "shut.idle",
+            crate::verif::json!({
+                "node": verif_node,
+                "bound_ms": self.config.shutdown_idle_timeout().as_millis() as u64,
+            }),
+        );
 
         // This is a small hack in order to ensure that the underlying socket we're bound to is
         // dropped and immediately available to be rebound to once this function exits.
@@ -198,6 +290,8 @@ impl ConnectionManager {
         self.endpoint.rebind(socket).unwrap();
         let socket = std::net::UdpSocket::bind((std::net::Ipv4Addr::LOCALHOST, 0)).unwrap();
         self.endpoint.rebind(socket).unwrap();
+        #[cfg(bmwill_anemo_verif)]
+        crate::verif::emit("shut.rebound", crate::verif::json!({ "node": verif_node }));
     }
 
     /// This method adds an established connection with a peer to the map of active peers.
@@ -226,11 +320,29 @@ impl ConnectionManager {
         peer_id: Option<PeerId>,
         oneshot: oneshot::Sender<Result<PeerId>>,
     ) {
+        #[cfg(bmwill_anemo_verif)]
+        crate::verif::emit(
+            "mgr.connect_req",
+            crate::verif::json!({
+                "node": crate::verif::pid(&self.endpoint.peer_id()),
+                "addr": format!("{address}"),
+                "expected": peer_id.as_ref().map(crate::verif::pid),
+            }),
+        );
         self.dial_peer(address, peer_id, oneshot);
     }
 
     fn handle_incoming(&mut self, connecting: Connecting) {
         trace!("received new incoming connection");
+
+        #[cfg(bmwill_anemo_verif)]
+        crate::verif::emit(
+            "in.accepted",
+            crate::verif::json!({
+                "node": crate::verif::pid(&self.endpoint.peer_id()),
+                "pending": self.pending_connections.len(),
+            }),
+        );
 
         self.pending_connections.spawn(Self::handle_incoming_task(
             connecting,
@@ -249,6 +361,35 @@ impl ConnectionManager {
         let fut = async {
             let connection = connecting.await?;
 
+            #[cfg(bmwill_anemo_verif)]
+            {
+                let fields = crate::verif::json!({
+                    "ap": active_peers.verif_id(),
+                    "gid": connection.verif_gid(),
+                    "sid": connection.stable_id(),
+                    "peer": crate::verif::pid(&connection.peer_id()),
+                });
+                crate::verif::emit("in.tls", fields.clone());
+                crate::verif::point("in.tls", fields).await;
+            }
+            #[cfg(bmwill_anemo_verif)]
+            let verif_admission = |verdict: &'static str| {
+                crate::verif::emit(
+                    "in.admission",
+                    crate::verif::json!({
+                        "ap": active_peers.verif_id(),
+                        "gid": connection.verif_gid(),
+                        "peer": crate::verif::pid(&connection.peer_id()),
+                        "verdict": verdict,
+                        "affinity": known_peers
+                            .get(&connection.peer_id())
+                            .map(|info| format!("{:?}", info.affinity)),
+                        "active_len": active_peers.len(),
+                        "limit": config.max_concurrent_connections(),
+                    }),
+                );
+            };
+
             // TODO close the connection explicitly with a reason once we have machine
             // readable errors. See https://github.com/MystenLabs/anemo/issues/13 for more info.
             match known_peers.get(&connection.peer_id()) {
@@ -262,6 +403,8 @@ impl ConnectionManager {
                     affinity: PeerAffinity::Never,
                     ..
                 }) => {
+                    #[cfg(bmwill_anemo_verif)]
+                    verif_admission("reject");
                     return Err(anyhow::anyhow!(
                         "rejecting connection from peer {} due to having PeerAffinity::Never",
                         connection.peer_id()
@@ -275,6 +418,8 @@ impl ConnectionManager {
                         // we don't go over this limit if multiple connections come in simultaneously.
                         if active_peers.len() >= limit {
                             // Connection doesn't meet the requirements to bypass the limit so bail
+                            #[cfg(bmwill_anemo_verif)]
+                            verif_admission("reject");
                             return Err(anyhow::anyhow!(
                                 "dropping connection from peer {} due to connection limits",
                                 connection.peer_id()
@@ -284,6 +429,9 @@ impl ConnectionManager {
                 }
             }
 
+            #[cfg(bmwill_anemo_verif)]
+            verif_admission("admit");
+
             super::wire::handshake(connection).await
         };
 
@@ -291,6 +439,19 @@ impl ConnectionManager {
             .await
             .map_err(Into::into)
             .and_then(std::convert::identity);
+
+        #[cfg(bmwill_anemo_verif)]
+        {
+            let fields = crate::verif::json!({
+                "ap": active_peers.verif_id(),
+                "ok": connecting_result.is_ok(),
+                "gid": connecting_result.as_ref().ok().map(|c| c.verif_gid()),
+                "peer": connecting_result.as_ref().ok().map(|c| crate::verif::pid(&c.peer_id())),
+                "err": connecting_result.as_ref().err().map(|e| format!("{e}")),
+            });
+            crate::verif::emit("in.done", fields.clone());
+            crate::verif::point("in.done", fields).await;
+        }
 
         ConnectingOutput {
             connecting_result,
@@ -313,7 +474,18 @@ impl ConnectionManager {
             Ok(new_connection) => {
                 let peer_id = new_connection.peer_id();
                 debug!(peer_id =% peer_id, "new connection");
+                #[cfg(bmwill_anemo_verif)]
+                let verif_fields = crate::verif::json!({
+                    "node": crate::verif::pid(&self.endpoint.peer_id()),
+                    "ok": true,
+                    "gid": new_connection.verif_gid(),
+                    "origin": crate::verif::origin(new_connection.origin()),
+                    "peer": crate::verif::pid(&peer_id),
+                    "replied": maybe_oneshot.is_some(),
+                });
                 self.add_peer(new_connection);
+                #[cfg(bmwill_anemo_verif)]
+                crate::verif::emit("mgr.result", verif_fields);
                 if let Some(oneshot) = maybe_oneshot {
                     let _ = oneshot.send(Ok(peer_id));
                 }
@@ -323,6 +495,17 @@ impl ConnectionManager {
                     target_address = ?target_address,
                     target_peer_id = ?target_peer_id,
                     "connecting failed: {e}"
+                );
+                #[cfg(bmwill_anemo_verif)]
+                crate::verif::emit(
+                    "mgr.result",
+                    crate::verif::json!({
+                        "node": crate::verif::pid(&self.endpoint.peer_id()),
+                        "ok": false,
+                        "target": target_peer_id.as_ref().map(crate::verif::pid),
+                        "replied": maybe_oneshot.is_some(),
+                        "err": format!("{e}"),
+                    }),
                 );
                 if let Some(oneshot) = maybe_oneshot {
                     let _ = oneshot.send(Err(e));
@@ -334,12 +517,21 @@ impl ConnectionManager {
     // TODO maybe look into marking an address as invalid if we weren't able to connect due to a
     // mismatching cryptographic identity
     fn handle_connectivity_check(&mut self, now: std::time::Instant) {
+        #[cfg(bmwill_anemo_verif)]
+        let mut verif_drained = Vec::new();
+        #[cfg(bmwill_anemo_verif)]
+        let mut verif_dials = Vec::new();
         // Drain any completed dials by checking if the oneshot channel has been filled or not
         self.pending_dials
             .retain(|peer_id, oneshot| match oneshot.try_recv() {
                 // We were able to successfully dial the Peer
                 Ok(Ok(returned_peer_id)) => {
                     debug_assert_eq!(peer_id, &returned_peer_id);
+                    #[cfg(bmwill_anemo_verif)]
+                    verif_drained.push(crate::verif::json!({
+                        "peer": crate::verif::pid(peer_id),
+                        "ok": true,
+                    }));
 
                     self.dial_backoff_states.remove(peer_id);
                     false
@@ -347,6 +539,11 @@ impl ConnectionManager {
 
                 // Dialing failed for some reason
                 Ok(Err(_)) => {
+                    #[cfg(bmwill_anemo_verif)]
+                    verif_drained.push(crate::verif::json!({
+                        "peer": crate::verif::pid(peer_id),
+                        "ok": false,
+                    }));
                     match self.dial_backoff_states.entry(*peer_id) {
                         Entry::Occupied(mut entry) => {
                             entry.get_mut().update(
@@ -396,6 +593,14 @@ impl ConnectionManager {
                 .collect()
         };
 
+        #[cfg(bmwill_anemo_verif)]
+        let verif_eligible: Vec<_> = eligible
+            .iter()
+            .map(|peer| crate::verif::pid(&peer.peer_id))
+            .collect();
+        #[cfg(bmwill_anemo_verif)]
+        let verif_pending_conn = self.pending_connections.len();
+
         // Limit the number of outstanding connections attempting to be established
         let number_to_dial = std::cmp::min(
             eligible.len(),
@@ -417,8 +622,43 @@ impl ConnectionManager {
                 % peer.address.len();
 
             let address = peer.address.remove(idx);
+            #[cfg(bmwill_anemo_verif)]
+            verif_dials.push(crate::verif::json!({
+                "peer": crate::verif::pid(&peer.peer_id),
+                "idx": idx,
+                "addr": format!("{address}"),
+            }));
             self.dial_peer(address, Some(peer.peer_id), sender);
             self.pending_dials.insert(peer.peer_id, receiver);
+        }
+
+        #[cfg(bmwill_anemo_verif)]
+        if crate::verif::enabled() {
+            let mut backoff: Vec<_> = self
+                .dial_backoff_states
+                .iter()
+                .map(|(peer_id, state)| {
+                    crate::verif::json!({
+                        "peer": crate::verif::pid(peer_id),
+                        "attempts": state.attempts,
+                        "not_before_ms": crate::verif::ms(state.backoff),
+                    })
+                })
+                .collect();
+            backoff.sort_by_key(|v| v["peer"].as_str().map(str::to_owned));
+            crate::verif::emit(
+                "mgr.tick",
+                crate::verif::json!({
+                    "node": crate::verif::pid(&self.endpoint.peer_id()),
+                    "now_ms": crate::verif::ms(now),
+                    "drained": verif_drained,
+                    "eligible": verif_eligible,
+                    "dials": verif_dials,
+                    "pending_conn": verif_pending_conn,
+                    "cap": self.config.max_concurrent_outstanding_connecting_connections(),
+                    "backoff": backoff,
+                }),
+            );
         }
     }
 
@@ -446,6 +686,18 @@ impl ConnectionManager {
         oneshot: oneshot::Sender<Result<PeerId>>,
         config: Arc<Config>,
     ) -> ConnectingOutput {
+        #[cfg(bmwill_anemo_verif)]
+        let verif_dial = crate::verif::next_id();
+        #[cfg(bmwill_anemo_verif)]
+        crate::verif::emit(
+            "dial.start",
+            crate::verif::json!({
+                "node": crate::verif::pid(&endpoint.peer_id()),
+                "dial": verif_dial,
+                "addr": format!("{target_address}"),
+                "expected": peer_id.as_ref().map(crate::verif::pid),
+            }),
+        );
         let fut = async {
             let socket_addr = target_address.resolve().await?;
 
@@ -456,6 +708,19 @@ impl ConnectionManager {
             }?
             .await?;
 
+            #[cfg(bmwill_anemo_verif)]
+            {
+                let fields = crate::verif::json!({
+                    "node": crate::verif::pid(&endpoint.peer_id()),
+                    "dial": verif_dial,
+                    "gid": connection.verif_gid(),
+                    "sid": connection.stable_id(),
+                    "peer": crate::verif::pid(&connection.peer_id()),
+                });
+                crate::verif::emit("dial.tls", fields.clone());
+                crate::verif::point("dial.tls", fields).await;
+            }
+
             super::wire::handshake(connection).await
         };
 
@@ -463,6 +728,21 @@ impl ConnectionManager {
             .await
             .map_err(Into::into)
             .and_then(std::convert::identity);
+
+        #[cfg(bmwill_anemo_verif)]
+        {
+            let fields = crate::verif::json!({
+                "node": crate::verif::pid(&endpoint.peer_id()),
+                "dial": verif_dial,
+                "ok": connecting_result.is_ok(),
+                "gid": connecting_result.as_ref().ok().map(|c| c.verif_gid()),
+                "peer": connecting_result.as_ref().ok().map(|c| crate::verif::pid(&c.peer_id())),
+                "expected": peer_id.as_ref().map(crate::verif::pid),
+                "err": connecting_result.as_ref().err().map(|e| format!("{e}")),
+            });
+            crate::verif::emit("dial.done", fields.clone());
+            crate::verif::point("dial.done", fields).await;
+        }
 
         ConnectingOutput {
             connecting_result,
@@ -572,6 +852,35 @@ impl ActivePeers {
     pub fn downgrade(&self) -> ActivePeersRef {
         ActivePeersRef(Arc::downgrade(&self.0))
     }
+
+    #[cfg(bmwill_anemo_verif)]
+    pub(crate) fn verif_id(&self) -> u64 {
+        self.inner().verif_id
+    }
+}
+
+#[cfg(bmwill_anemo_verif)]
+pub(crate) fn verif_active_peers_add(
+    active_peers: &ActivePeers,
+    own_peer_id: &PeerId,
+    new_connection: Connection,
+) -> Option<Connection> {
+    active_peers.add(own_peer_id, new_connection)
+}
+
+#[cfg(bmwill_anemo_verif)]
+pub(crate) fn verif_tie_break(
+    own_peer_id: &PeerId,
+    remote_peer_id: &PeerId,
+    existing_origin: ConnectionOrigin,
+    new_origin: ConnectionOrigin,
+) -> bool {
+    ActivePeersInner::simultaneous_dial_tie_breaking(
+        own_peer_id,
+        remote_peer_id,
+        existing_origin,
+        new_origin,
+    )
 }
 
 #[derive(Debug, Clone)]
@@ -587,6 +896,10 @@ impl ActivePeersRef {
 struct ActivePeersInner {
     connections: HashMap<PeerId, Connection>,
     peer_event_sender: broadcast::Sender<PeerEvent>,
+    #[cfg(bmwill_anemo_verif)]
+    verif_id: u64,
+    #[cfg(bmwill_anemo_verif)]
+    verif_seq: std::sync::atomic::AtomicU64,
 }
 
 impl ActivePeersInner {
@@ -595,12 +908,35 @@ impl ActivePeersInner {
         Self {
             connections: Default::default(),
             peer_event_sender: sender,
+            #[cfg(bmwill_anemo_verif)]
+            verif_id: crate::verif::next_id(),
+            #[cfg(bmwill_anemo_verif)]
+            verif_seq: Default::default(),
         }
+    }
+
+    /// Log one operation on the active set. Called with the lock held, after the change.
+    #[cfg(bmwill_anemo_verif)]
+    fn verif_emit(&self, ev: &'static str, mut fields: serde_json::Value) {
+        let seq = self
+            .verif_seq
+            .fetch_add(1, std::sync::atomic::Ordering::Relaxed);
+        fields["ap"] = self.verif_id.into();
+        fields["apseq"] = seq.into();
+        fields["len"] = self.connections.len().into();
+        crate::verif::emit(ev, fields);
     }
 
     fn subscribe(&self) -> (broadcast::Receiver<PeerEvent>, Vec<PeerId>) {
         let peers = self.peers();
         let receiver = self.peer_event_sender.subscribe();
+        #[cfg(bmwill_anemo_verif)]
+        self.verif_emit(
+            "ap.subscribe",
+            crate::verif::json!({
+                "snapshot": peers.iter().map(crate::verif::pid).collect::<Vec<_>>(),
+            }),
+        );
         (receiver, peers)
     }
 
@@ -621,12 +957,29 @@ impl ActivePeersInner {
     }
 
     fn remove(&mut self, peer_id: &PeerId, reason: DisconnectReason) {
+        #[cfg(bmwill_anemo_verif)]
+        let mut verif_removed = None;
+        #[cfg(bmwill_anemo_verif)]
+        let verif_reason = crate::verif::reason(&reason);
         if let Some(connection) = self.connections.remove(peer_id) {
+            #[cfg(bmwill_anemo_verif)]
+            {
+                verif_removed = Some(connection.verif_gid());
+            }
             // maybe actually provide reason to other side?
             connection.close();
 
             self.send_event(PeerEvent::LostPeer(*peer_id, reason));
         }
+        #[cfg(bmwill_anemo_verif)]
+        self.verif_emit(
+            "ap.remove",
+            crate::verif::json!({
+                "peer": crate::verif::pid(peer_id),
+                "reason": verif_reason,
+                "removed": verif_removed,
+            }),
+        );
     }
 
     fn remove_with_stable_id(
@@ -635,11 +988,19 @@ impl ActivePeersInner {
         stable_id: usize,
         reason: DisconnectReason,
     ) {
+        #[cfg(bmwill_anemo_verif)]
+        let mut verif_removed = None;
+        #[cfg(bmwill_anemo_verif)]
+        let verif_reason = crate::verif::reason(&reason);
         match self.connections.entry(peer_id) {
             Entry::Occupied(entry) => {
                 // Only remove the entry if the stable id matches
                 if entry.get().stable_id() == stable_id {
                     let (peer_id, connection) = entry.remove_entry();
+                    #[cfg(bmwill_anemo_verif)]
+                    {
+                        verif_removed = Some(connection.verif_gid());
+                    }
                     // maybe actually provide reason to other side?
                     connection.close();
 
@@ -648,9 +1009,34 @@ impl ActivePeersInner {
             }
             Entry::Vacant(_) => {}
         }
+        #[cfg(bmwill_anemo_verif)]
+        self.verif_emit(
+            "ap.remove_id",
+            crate::verif::json!({
+                "peer": crate::verif::pid(&peer_id),
+                "sid": stable_id,
+                "reason": verif_reason,
+                "removed": verif_removed,
+            }),
+        );
     }
 
     fn send_event(&self, event: PeerEvent) {
+        #[cfg(bmwill_anemo_verif)]
+        self.verif_emit(
+            "ap.event",
+            match &event {
+                PeerEvent::NewPeer(peer_id) => crate::verif::json!({
+                    "kind": "new",
+                    "peer": crate::verif::pid(peer_id),
+                }),
+                PeerEvent::LostPeer(peer_id, reason) => crate::verif::json!({
+                    "kind": "lost",
+                    "peer": crate::verif::pid(peer_id),
+                    "reason": crate::verif::reason(reason),
+                }),
+            },
+        );
         // We don't care if anyone is listening
         let _ = self.peer_event_sender.send(event);
     }
@@ -660,8 +1046,22 @@ impl ActivePeersInner {
         // TODO drop Connection if you've somehow connected out ourself
 
         let peer_id = new_connection.peer_id();
+        #[cfg(bmwill_anemo_verif)]
+        let mut verif_fields = crate::verif::json!({
+            "own": crate::verif::pid(own_peer_id),
+            "peer": crate::verif::pid(&peer_id),
+            "gid": new_connection.verif_gid(),
+            "sid": new_connection.stable_id(),
+            "origin": crate::verif::origin(new_connection.origin()),
+            "outcome": "new",
+        });
         match self.connections.entry(peer_id) {
             Entry::Occupied(mut entry) => {
+                #[cfg(bmwill_anemo_verif)]
+                {
+                    verif_fields["old_gid"] = entry.get().verif_gid().into();
+                    verif_fields["old_origin"] = crate::verif::origin(entry.get().origin()).into();
+                }
                 if Self::simultaneous_dial_tie_breaking(
                     own_peer_id,
                     &peer_id,
@@ -672,9 +1072,18 @@ impl ActivePeersInner {
                     let old_connection = entry.insert(new_connection.clone());
                     old_connection.close();
                     self.send_event(PeerEvent::LostPeer(peer_id, DisconnectReason::Requested));
+                    #[cfg(bmwill_anemo_verif)]
+                    {
+                        verif_fields["outcome"] = "replaced".into();
+                    }
                 } else {
                     debug!("closing new connection with {peer_id:?} to mitigate simultaneous dial");
                     new_connection.close();
+                    #[cfg(bmwill_anemo_verif)]
+                    {
+                        verif_fields["outcome"] = "rejected".into();
+                        self.verif_emit("ap.add", verif_fields);
+                    }
                     // Early return to avoid standing up Incoming Request handlers
                     return None;
                 }
@@ -685,6 +1094,8 @@ impl ActivePeersInner {
         }
 
         self.send_event(PeerEvent::NewPeer(peer_id));
+        #[cfg(bmwill_anemo_verif)]
+        self.verif_emit("ap.add", verif_fields);
 
         Some(new_connection)
     }
